@@ -431,20 +431,7 @@ func (x *c15G) nodes(depth, lo, hi int) []*c15Node {
 	return ns
 }
 
-// ---------------------------------------------------------------- alias safety of truncate (in-place edit)
-
-var c15SingleVar = func(t string) string {
-	// the template is one variable part: "$f", "${f}" or "${f[a:b]}"
-	m := refTplVar.FindStringSubmatchIndex(t)
-	if m == nil || m[0] != 0 || m[1] != len(t) {
-		return ""
-	}
-	sm := refTplVar.FindStringSubmatch(t)
-	if sm[1] != "" {
-		return sm[1]
-	}
-	return sm[4]
-}
+// ---------------------------------------------------------------- helpers
 
 func c15Walk(ns []*c15Node, f func(*c15Node)) {
 	for _, n := range ns {
@@ -454,52 +441,6 @@ func c15Walk(ns []*c15Node, f func(*c15Node)) {
 			c15Walk(c.Then, f)
 		}
 	}
-}
-
-// truncate edits the value in place (C12's subject: defect #19 of DESIGN.md); the value-level
-// semantics checked here need the truncated field to own its bytes.  Fields that may hold a
-// shared / aliased value anywhere in the program are never truncated by generated programs.
-func c15MakeAliasSafe(prog []*c15Node) {
-	unsafeF := map[string]bool{}
-	c15Walk(prog, func(n *c15Node) {
-		switch n.Kind {
-		case kAddFields:
-			for _, p := range n.Pairs {
-				if !strings.Contains(p[1], "$") {
-					unsafeF[p[0]] = true // the configuration's own string
-				} else if v := c15SingleVar(p[1]); v != "" {
-					unsafeF[p[0]] = true
-					unsafeF[v] = true
-				}
-			}
-		case kMapValue:
-			unsafeF[n.Key] = true
-		case kExHead, kExTail:
-			unsafeF[n.Dest] = true
-		case kExtractRe:
-			unsafeF[n.Key] = true
-			for _, f := range c15Schema {
-				if strings.Contains(n.Pat, "<"+f+">") {
-					unsafeF[f] = true
-				}
-			}
-		}
-	})
-	var safe []string
-	for _, f := range c15Schema {
-		if !unsafeF[f] {
-			safe = append(safe, f)
-		}
-	}
-	c15Walk(prog, func(n *c15Node) {
-		if n.Kind == kTruncate && unsafeF[n.Key] {
-			if len(safe) > 0 {
-				n.Key = safe[0]
-			} else {
-				n.Kind, n.Keys = kDelFields, []string{n.Key}
-			}
-		}
-	})
 }
 
 // ---------------------------------------------------------------- records and cases
@@ -593,6 +534,7 @@ func c15Gen(g *Gen) {
 	c15Fixed(g)
 	c15Slices(g)
 	c15Truncates(g)
+	c15TruncateRuns(g)
 	c15Extracts(g)
 	c15Drops(g)
 	c15Matchers(g)
@@ -605,7 +547,6 @@ func c15Gen(g *Gen) {
 	for i := 0; i < g.Pick(1500, 40000); i++ {
 		x := &c15G{g: g, r: r, cand: map[string][]string{}}
 		prog := x.nodes(0, 1, 4)
-		c15MakeAliasSafe(prog)
 		recs := x.records(r.Range(4, 10))
 		// the first record again, several times in a row, through the same instance
 		for k := r.Range(0, 3); k > 0; k-- {
@@ -666,7 +607,11 @@ func c15Slices(g *Gen) {
 	for i := 0; i < g.Pick(40, 600); i++ {
 		var sb strings.Builder
 		for k := 0; k < 8; k++ {
-			fmt.Fprintf(&sb, "${log[%s:%s]}|", r.PickStr(bounds), r.PickStr(bounds))
+			part := fmt.Sprintf("${log[%s:%s]}|", r.PickStr(bounds), r.PickStr(bounds))
+			if sb.Len()+len(part) > 250 { // the program encoding holds strings of at most 255 bytes
+				break
+			}
+			sb.WriteString(part)
 		}
 		c15Emit(g, "slice-multi", one(&c15Node{Kind: kAddFields, Pairs: [][2]string{{"aux", sb.String()}}}), c15Schema, vals)
 	}
@@ -698,6 +643,25 @@ func c15Truncates(g *Gen) {
 				c15Emit(g, "truncate-enum", one(node), c15Schema, recs[i:j])
 			}
 		}
+	}
+}
+
+// long runs of non-ASCII bytes in front of the cut (nothing ASCII within the last dozen bytes), every alignment
+func c15TruncateRuns(g *Gen) {
+	runes := []string{"é", "世", "😀", "éé世", "世😀", "é😀世", "\x80", "é\xe4"}
+	for _, m := range []int{7, 8, 9, 10, 11, 12, 13, 16, 17, 20, 24} {
+		node := &c15Node{Kind: kTruncate, Key: "log", Num: strconv.Itoa(m), Suffix: "."}
+		var recs []*c15Rec
+		for _, u := range runes {
+			for pre := 0; pre <= 4; pre++ {
+				v := strings.Repeat("a", pre)
+				for len(v) < m+len(u)+3 {
+					v += u
+				}
+				recs = append(recs, recOf(v), recOf(v+"tail"))
+			}
+		}
+		c15Emit(g, "truncate-runs", one(node), c15Schema, recs)
 	}
 }
 
@@ -868,7 +832,7 @@ func c15Unescapes(g *Gen) {
 	c15Emit(g, "unescape-flag", []*c15Node{{Kind: kUnescape, Key: "app"}, {Kind: kUnescape, Key: "log"}}, c15Schema, recs2)
 }
 
-// configurations that must be rejected, and the accepted-then-panicking ones that belong to C16
+// configurations that must be rejected (none of them may panic)
 func c15Malformed(g *Gen) {
 	recs := []*c15Rec{recOf("abc x", "abc", "x")}
 	bad := [][]*c15Node{
@@ -921,7 +885,7 @@ func c15Malformed(g *Gen) {
 		one(&c15Node{Kind: kExHead, Key: "log", Pat: `a*b`, Num: "5", Dest: "nope"}),
 		one(&c15Node{Kind: kExHead, Key: "log", Pat: `a*b`, Num: "5", Dest: ""}),
 		one(&c15Node{Kind: kExTail, Key: "log", Pat: `a]*[`, Num: "5", Dest: "cls"}),
-		// accepted by VerifyConfig, then panic (C16: DESIGN.md section 6 #12)
+		// rejected by VerifyConfig since it builds the extractor (were accepted-then-panic before the C16 fixes)
 		one(&c15Node{Kind: kExHead, Key: "log", Pat: "x[]", Num: "10", Dest: "cls"}),
 		one(&c15Node{Kind: kExHead, Key: "log", Pat: "[a--z]", Num: "10", Dest: "cls"}),
 		one(&c15Node{Kind: kExHead, Key: "log", Pat: "abc*", Num: "10", Dest: "cls"}),
@@ -938,7 +902,7 @@ func c15Malformed(g *Gen) {
 		one(&c15Node{Kind: kReplace, Key: "nope", Pat: "a", Repl: "x"}),
 		one(&c15Node{Kind: kExtractRe, Key: "log", Pat: "("}),
 		one(&c15Node{Kind: kExtractRe, Key: "log", Pat: ""}),
-		// named capture that is not a field: accepted, panics in NewTransform (C16: #9)
+		// named capture that is not a field: rejected by VerifyConfig (was a panic in NewTransform)
 		one(&c15Node{Kind: kExtractRe, Key: "log", Pat: "(?P<nope>ab)"}),
 	}
 	for _, p := range bad {
